@@ -405,6 +405,45 @@ func main() {
 		}
 		return "def docLfsconfigKeys : List Bytes := " + bytesList(keys)
 	})
+	// ---- commands/command_filter_process.go + vendored pktline (C14)
+	cmds := safeLoad(filepath.Join(repo, "commands"))
+	emit("pktlineMaxPacketLength", func() string {
+		gomod, err := os.ReadFile(filepath.Join(repo, "go.mod"))
+		if err != nil {
+			die("%v", err)
+		}
+		ver := ""
+		for _, l := range strings.Split(string(gomod), "\n") {
+			f := strings.Fields(l)
+			if len(f) >= 2 && f[0] == "github.com/git-lfs/pktline" {
+				ver = f[1]
+			}
+		}
+		if ver == "" {
+			die("pktline version not found in go.mod")
+		}
+		modcache := os.Getenv("GOMODCACHE")
+		if modcache == "" {
+			modcache = filepath.Join(os.Getenv("HOME"), "go", "pkg", "mod")
+		}
+		pk := load(filepath.Join(modcache, "github.com", "git-lfs", "pktline@"+ver))
+		facts["pktline_version"] = ver
+		return fmt.Sprintf("def pktlineMaxPacketLength : Nat := %d", pk.num("MaxPacketLength"))
+	})
+	emit("cleanFilterBufferCapacity", func() string {
+		return fmt.Sprintf("def cleanFilterBufferCapacity : Nat := %d", cmds.num("cleanFilterBufferCapacity"))
+	})
+	emit("smudgeFilterBufferCapacity", func() string {
+		// declared as pktline.MaxPacketLength
+		d, ok := cmds.decls["smudgeFilterBufferCapacity"]
+		if !ok {
+			die("declaration smudgeFilterBufferCapacity not found")
+		}
+		if se, ok := d.(*ast.SelectorExpr); ok && exprText(se) == "pktline.MaxPacketLength" {
+			return "def smudgeFilterBufferCapacity : Nat := pktlineMaxPacketLength"
+		}
+		return fmt.Sprintf("def smudgeFilterBufferCapacity : Nat := %d", cmds.num("smudgeFilterBufferCapacity"))
+	})
 	// ---- tq (C06, C15)
 	for _, n := range []string{"defaultBatchSize", "baseRetryDelayMs", "defaultMaxRetries", "defaultMaxRetryDelay"} {
 		n := n
